@@ -191,6 +191,11 @@ pub fn minimise(orig: &RunSpec, orig_budgets: &[Budget], v0: &Violation) -> Mini
                 c.instances[i].field = Field::Real;
                 progress |= attempt!(c);
             }
+            {
+                let mut c = cur.clone();
+                c.instances[i].data = DataMode::Unit;
+                progress |= attempt!(c);
+            }
             if cur.instances[i].dim.dynamic {
                 let mut c = cur.clone();
                 let n = c.instances[i].dim.n;
